@@ -364,8 +364,100 @@ def stratified(behs, n, rnd):
     return out
 
 
+# ------------------------------------------------------------------ histories of performed inline requests
+def run_seq(item):
+    """spec/PyInlineSeq.tla: several inline requests performed one after the other (a new refactoring
+    object each, same project, same process); the program must print the same after every one"""
+    _, beh, forms = item
+    common.use_repo()
+    from rope.base import project as project_mod, exceptions
+    from rope.refactor import inline as inline_mod
+
+    res = {"beh": beh, "forms": forms, "fails": [], "outcome": None, "part": "sequence", "steps": []}
+    src = pc.render_chain_program(beh["nfuncs"], beh["names"], forms)
+    want = " ".join(str(x) for x in beh["out"]) + "\n"
+    r0 = runpy.exec_source(src)
+    if r0["exc"] or r0["syntax"] or r0["out"] != want:
+        return {"machinery": "spec vs CPython (PyInlineSeq.Exec): %r vs %r\n%s" % (r0["out"], want, src), "item": beh}
+    root = common.scratch("pcseq_")
+    try:
+        with open(os.path.join(root, "m.py"), "w") as f:
+            f.write(src)
+        project = project_mod.Project(root, ropefolder=None)
+        try:
+            res["before"] = src
+            cur = src
+            for step, k in enumerate(beh["hist"], 1):
+                try:
+                    offset = cur.index("def f%d(" % k) + 4
+                    changes = inline_mod.create_inline(project, project.get_file("m.py"), offset).get_changes()
+                    project.do(changes)
+                except exceptions.RopeError as e:
+                    res["steps"].append("refused: %s" % str(e)[:80])
+                    if open(os.path.join(root, "m.py")).read() != cur:
+                        res["fails"].append("RefusalLeftChanges")
+                    break
+                except Exception as e:  # noqa
+                    res["fails"].append("InternalError")
+                    res["exc"] = "%s: %s" % (type(e).__name__, str(e)[:160])
+                    res["failed_step"] = step
+                    break
+                cur = open(os.path.join(root, "m.py")).read()
+                res["after"] = cur
+                res["steps"].append("changed")
+                r1 = runpy.exec_source(cur)
+                bad = None
+                if r1["syntax"]:
+                    bad = "Parses"
+                elif r1["exc"] or r1["out"] != want:
+                    bad = "ObsPreserved"
+                elif ("def f%d(" % k) in cur or ("f%d(" % k) in cur:
+                    bad = "NoDanglingCall"
+                if bad:
+                    res["fails"].append(bad)
+                    res["failed_step"] = step
+                    res["detail"] = {"got": r1["out"], "exc_after": r1["exc"], "want": want}
+                    break
+            res["outcome"] = "changed" if "changed" in res["steps"] else ("error" if res["fails"] else "refused")
+            if res["outcome"] == "refused":
+                res["refusal"] = res["steps"][0] if res["steps"] else "?"
+            return res
+        finally:
+            project.close()
+    finally:
+        common.rmtree(root)
+
+
+def seq_key(r):
+    beh = r["beh"]
+    k = r.get("failed_step")
+    clash_hist = [[a, b] for a, b in beh["clashes"]]
+    return {"part": "sequence", "clauses": sorted(r["fails"]), "cause": None,
+            "failed_request": k, "requests": len(beh["hist"]),
+            "earlier_requests_performed": (k or 1) - 1,
+            "name_clashes": len(clash_hist), "forms": sorted(set(r["forms"])),
+            "exc": (r.get("exc") or "").split(":")[0] or None,
+            "exc_after": (r.get("detail") or {}).get("exc_after")}
+
+
+def tlc_seq(verdict, nfuncs, max_requests, defect=False):
+    cfg = os.path.join(common.SCRATCH_BASE, "pcseq_%d_%s.cfg" % (os.getpid(), common.digest([nfuncs, max_requests, defect])))
+    tlc.write_cfg(cfg, constants={"NFuncs": nfuncs, "LocalNames": tlc.Sub("MCNames"), "MaxRequests": max_requests,
+                                  "PrefixPerRequest": defect},
+                  invariants=["NoCapture"] if defect else ["NoCapture", "AllVariablesKept", "Export"])
+    behs = []
+    res = tlc.run("MC_PyInlineSeq", cfg, on_tagged=lambda t, v: behs.append(v), collect_tags=False, workers=4)
+    os.unlink(cfg)
+    if not defect:
+        print("TLC PyInlineSeq[funcs=%d requests<=%d]:" % (nfuncs, max_requests), res.summary(), "behaviours", len(behs))
+        if not res.ok:
+            verdict.machinery_failure("TLC: %s %s\n%s" % (res.violated, res.error, (res.trace or res.tail)[-1200:]))
+    return res, behs
+
+
 def run_item(item):
-    return {"function": run_inline, "parameter": run_param, "variable": run_var}[item[0]](item)
+    return {"function": run_inline, "parameter": run_param, "variable": run_var,
+            "sequence": run_seq}[item[0]](item)
 
 
 def tlc_inline(verdict, max_params, max_sites, coverage=False, extra_inv=(), plain=False, scopes=False):
@@ -418,19 +510,23 @@ def main(tier):
     # scopes and names: every site in its own scope, with / without a clashing live local, repeats of
     # site 1's call text
     jobs.append(lambda: tlc_inline(verdict, 2 if quick else 3, 2, plain=True, scopes=True))
+    # histories of several performed inline requests
+    jobs.append(lambda: tlc_seq(verdict, 3, 2) if quick else tlc_seq(verdict, 4, 3))
     if not quick:
         # wider signatures / more sites with plain bodies (the use x cx product is exhausted above)
         jobs.append(lambda: tlc_inline(verdict, 3, 2, plain=True))
         jobs.append(lambda: tlc_inline(verdict, 2, 3, plain=True))
     got = c06.parallel(jobs)
-    (r1, fbehs), (rv, vbehs), (rp, pbehs), (rs, sbehs) = got[:4]
-    runs += [r1, rv, rp, rs]
+    (r1, fbehs), (rv, vbehs), (rp, pbehs), (rs, sbehs), (rq, qbehs) = got[:5]
+    runs += [r1, rv, rp, rs, rq]
+    if not any(len(b["hist"]) >= 2 and b["clashes"] for b in qbehs):
+        verdict.machinery_failure("no history of two performed inline requests with clashing locals")
     for b in sbehs:
         b["scoped"] = True
     if not any(b["twins"] and any(s["h"] for s in b["sites"]) for b in sbehs):
         verdict.machinery_failure("no behaviour with textually identical sites in scopes with different locals")
     if not quick:
-        (r2, behs2), (r3, behs3) = got[4], got[5]
+        (r2, behs2), (r3, behs3) = got[5], got[6]
         runs += [r2, r3]
         fbehs += [b for b in behs2 if len(b["sig"]["ps"]) == 3]
         fbehs += [b for b in behs3 if len(b["sites"]) == 3]
@@ -450,6 +546,11 @@ def main(tier):
         if s0.violated != "HostLocalsKeptC":
             verdict.machinery_failure("model insensitive: cached bodies satisfy HostLocalsKept (%s %s)" % (
                 s0.violated, s0.error))
+        sq, _ = tlc_seq(verdict, 3, 2, defect=True)
+        sens["prefix-counter-restarts-per-request"] = sq.violated
+        if sq.violated != "NoCapture":
+            verdict.machinery_failure("model insensitive: per-request prefixes satisfy NoCapture (%s %s)" % (
+                sq.violated, sq.error))
         s1, _ = tlc_inline(verdict, 2, 2, extra_inv=["SitesIndependentD"])
         sens["rope-as-modelled(shared map, splice, reassign)"] = s1.violated
         if s1.violated != "SitesIndependentD":
@@ -467,7 +568,7 @@ def main(tier):
         rnd.shuffle(behs)
         return behs[:n]
     totals = {"function": len(fbehs), "function_scopes": len(sbehs), "variable": len(vbehs),
-              "parameter": len(pbehs)}
+              "parameter": len(pbehs), "sequence": len(qbehs)}
     fbehs = stratified(fbehs, 600 if quick else 30000, rnd) + stratified(sbehs, 400 if quick else 12000, rnd)
     vbehs = pick(vbehs, 1000 if quick else 40000)
     pbehs = pick(pbehs, 60 if quick else 10000)
@@ -485,8 +586,17 @@ def main(tier):
     for b in pbehs:
         for kind in (sorted(b["kinds"]) if not quick else [rnd.choice(sorted(b["kinds"]))]):
             items.append(("parameter", b, kind))
+    qbehs.sort(key=lambda b: json.dumps(b, sort_keys=True))
+    for b in qbehs:
+        # every history, with the calls written both ways (seeded mix as a third rendering in thorough)
+        n = b["nfuncs"]
+        variants = [["rhs"] * n, ["nested"] * n]
+        if not quick:
+            variants.append([rnd.choice(("rhs", "nested")) for _ in range(n)])
+        for forms in variants:
+            items.append(("sequence", b, forms))
     rnd.shuffle(items)
-    parts = ("function", "variable", "parameter")
+    parts = ("function", "variable", "parameter", "sequence")
     counts = {p: {"changed": 0, "noop": 0, "refused": 0, "error": 0} for p in parts}
     refusals = {}
     nontrivial = set()
@@ -512,6 +622,8 @@ def main(tier):
                                 "after_n": r["after"]["n.py"]})
             elif part == "variable":
                 samples.append({"part": part, "request": beh["req"], "before": r["before"], "after": r["after"]})
+            elif part == "sequence":
+                samples.append({"part": part, "names": beh["names"], "requests": beh["hist"], "after": r["after"]})
             else:
                 samples.append({"part": part, "kind": r["kind"], "signature": pc.sig_text(beh["sig0"], r["kind"]),
                                 "parameter": r["at"][1], "sites": len(beh["sites"])})
@@ -527,6 +639,10 @@ def main(tier):
                 rep = {"program": beh["prog"], "request": beh["req"], "scope": r["scope"],
                        "before": r.get("before"), "after": r.get("after"),
                        "spec": {k: beh[k] for k in ("out0", "out1", "out1D", "parens")}}
+            elif part == "sequence":
+                key = seq_key(r)
+                rep = {"names": beh["names"], "requests": beh["hist"], "forms": r["forms"], "steps": r["steps"],
+                       "before": r.get("before"), "after": r.get("after"), "spec_output": beh["out"]}
             else:
                 key = param_key(r)
                 rep = {"kind": r["kind"], "signature": pc.sig_text(beh["sig0"], r["kind"]), "changers": beh["chg"],
